@@ -30,13 +30,16 @@ AInitAuth == nverify = 0 /\ nwire = 0
 AResetAuth == nverify' = 0 /\ nwire' = 0
 
 Schemes == {"basic", "md5", "sha256"}
-Perts == {"none", "user", "pass", "realm", "nonce", "method", "alg", "url",
+Perts == {"none", "user", "pass", "realm", "nonce", "method", "alg", "noalg", "url",
           "setup_base", "base_nonsetup", "setup_other"}
 
 \* perturbations that change something the authorization was computed from
+\* ("noalg": the algorithm parameter is left out of a Digest authorization, which then reads as
+\* MD5 (RFC 2617): an MD5 authorization is unaffected, a SHA-256 one no longer matches)
 Affects(sent, pert) ==
   IF sent = "basic" THEN pert \in {"user", "pass"}
   ELSE pert \in {"user", "pass", "realm", "nonce", "method", "alg", "url", "base_nonsetup", "setup_other"}
+       \/ (pert = "noalg" /\ sent = "sha256")
 
 MustAccept(sent, pert, enabledHas) == enabledHas /\ ~Affects(sent, pert)
 
